@@ -4,7 +4,7 @@ itself) and records which checks report a violation.  Writes seeded/MATRIX.json 
 import json, os, subprocess, sys, tempfile, shutil, time
 ROOT = "/verif"
 # related checks that are run in addition to the check of the property a change was written against
-EXTRA = {"C01-queryloop-bound-from-other-copy": ["C20"], "C07-rangecheck-single-64bit": ["C05", "C06"],
+EXTRA = {"C03-commit-checker-pairs-32bit-checks": ["C06", "C17"], "C01-queryloop-bound-from-other-copy": ["C20"], "C07-rangecheck-single-64bit": ["C05", "C06"],
          "C16-qdf-from-max-qdf": ["C19"], "C02-powwitness-int64-sign": ["C19"], "C05-basesum-noreduce-product": ["C15"],
          "C17-rangecheck-toplimb-maxint32": ["C06"], "C14-basewidth-guard-relaxed": ["C06"]}
 only = sys.argv[1:]
